@@ -397,7 +397,7 @@ func c11R6(p *core.Program, r *core.Report) { namerRewriteRule(p, r, "R6") }
 func namerRewriteRule(p *core.Program, r *core.Report, rule string) {
 	r.Floor(rule, 2)
 	nf := p.FuncByName("pkg/namer", "(*rawNamer).Name")
-	pn := p.FuncByName("pkg/namer", "(*rawNamer).processName")
+	pn := namerRewriter(p) // by role: the function of pkg/namer that parses the name with ParseTypeRef
 	if nf == nil || pn == nil {
 		r.Anchor(rule, "pkg/namer.(*rawNamer).Name / processName")
 		return
@@ -448,8 +448,9 @@ func namerRewriteRule(p *core.Program, r *core.Report, rule string) {
 	}
 	// processName receives the reference's own name
 	okArg := false
-	if len(pcall.Args) == 1 {
-		if nc, ok := ast.Unparen(pcall.Args[0]).(*ast.CallExpr); ok && strings.HasSuffix(core.CalleeName(info, nc), ").Name") {
+	for _, a := range pcall.Args {
+		// among the arguments (the rewriter may also be handed the tracker and the own path)
+		if nc, ok := ast.Unparen(a).(*ast.CallExpr); ok && strings.HasSuffix(core.CalleeName(info, nc), ").Name") {
 			if v := core.VarOf(info, recvOf(nc)); v != nil && isParamOf(nf, v) {
 				okArg = true
 			}
